@@ -48,6 +48,8 @@ ASSUMPTIONS = [
     "filtered_sweep keys are a non-empty subset of the combination keys; results are compared as sets plus a no-duplicates check",
     "count_sweep tuples are compared independent of the argument order chosen by Pipeline.root_args",
     "values are short strings (hashable, sortable)",
+    "Sweep({}) is not used as a product operand (undetermined: empty set vs. identity)",
+    "count_sweep is exercised with use_pandas=False only; the pandas fast path's key format is not covered by the property",
 ]
 
 
@@ -303,7 +305,7 @@ def count_case(draw):
         "pick": draw(st.sampled_from([0, 0, 0, 1, 1, 2, 3])),  # index into the outputs sorted by #dependencies (desc)
         "whole_tuple": draw(st.booleans()),
         "as_list": _chance(draw, 1, 3),
-        "use_pandas": _chance(draw, 1, 4),
+        "use_pandas": False,  # the pandas fast path is not part of the property (see ASSUMPTIONS)
     }
 
 
@@ -481,6 +483,12 @@ def body_product(data) -> Outcome:
     for lab in ("zipped", "exclude", "constants", "derivers", "empty-list", "dims-permuted"):
         if any(lab in rec_labels(r) for r in ops):
             out.labels.append("some-" + lab)
+    if any(not r["items"] for r in ops):
+        # Sweep({}) as a product operand is outside the domain: neither the property nor the docs say whether it
+        # denotes "no combination" or "the single empty combination" (see ASSUMPTIONS)
+        out.labels.append("n/a:empty-items-operand")
+        out.nontrivial = False
+        return out
     ref = ref_product(ops)
     out.labels.append("empty-result" if not ref else "nonempty-result")
     all_ordered = all(order_defined(r) for r in ops)
